@@ -765,14 +765,14 @@ pub proof fn lemma_push_cycle(old_t: TView, new_t: TView, net: &Network, tours: 
     assert(new_t.wf_counters(net, tours2));
 }
 
-// ---- membership in duplicate-free index lists (empty_cycles) -----------------------------------------
-pub proof fn lemma_drop_last_contains(s: Seq<CycleIdx>)
+// ---- membership in duplicate-free lists ---------------------------------------------------------------
+pub proof fn lemma_drop_last_contains<T>(s: Seq<T>)
     requires s.no_duplicates(), s.len() > 0,
     ensures s.drop_last().no_duplicates(),
-        forall|x: CycleIdx| #[trigger] s.drop_last().contains(x) <==> (s.contains(x) && x != s.last()),
+        forall|x: T| #[trigger] s.drop_last().contains(x) <==> (s.contains(x) && x != s.last()),
 {
     let d = s.drop_last();
-    assert forall|x: CycleIdx| #[trigger] d.contains(x) <==> (s.contains(x) && x != s.last()) by {
+    assert forall|x: T| #[trigger] d.contains(x) <==> (s.contains(x) && x != s.last()) by {
         if d.contains(x) {
             let i = choose|i: int| 0 <= i < d.len() && d[i] == x;
             assert(s[i] == x);
@@ -783,13 +783,13 @@ pub proof fn lemma_drop_last_contains(s: Seq<CycleIdx>)
         }
     }
 }
-pub proof fn lemma_push_contains(s: Seq<CycleIdx>, y: CycleIdx)
+pub proof fn lemma_push_contains<T>(s: Seq<T>, y: T)
     requires s.no_duplicates(), !s.contains(y),
     ensures s.push(y).no_duplicates(),
-        forall|x: CycleIdx| #[trigger] s.push(y).contains(x) <==> (s.contains(x) || x == y),
+        forall|x: T| #[trigger] s.push(y).contains(x) <==> (s.contains(x) || x == y),
 {
     let d = s.push(y);
-    assert forall|x: CycleIdx| #[trigger] d.contains(x) <==> (s.contains(x) || x == y) by {
+    assert forall|x: T| #[trigger] d.contains(x) <==> (s.contains(x) || x == y) by {
         if d.contains(x) {
             let i = choose|i: int| 0 <= i < d.len() && d[i] == x;
             if i < s.len() { assert(s[i] == x); }
@@ -807,5 +807,78 @@ pub proof fn lemma_push_contains(s: Seq<CycleIdx>, y: CycleIdx)
         } else {
             assert(s.contains(s[j]));
         }
+    }
+}
+pub proof fn lemma_remove_contains<T>(s: Seq<T>, p: int)
+    requires s.no_duplicates(), 0 <= p < s.len(),
+    ensures s.remove(p).no_duplicates(),
+        forall|x: T| #[trigger] s.remove(p).contains(x) <==> (s.contains(x) && x != s[p]),
+{
+    let d = s.remove(p);
+    assert forall|x: T| #[trigger] d.contains(x) <==> (s.contains(x) && x != s[p]) by {
+        if d.contains(x) {
+            let i = choose|i: int| 0 <= i < d.len() && d[i] == x;
+            if i < p { assert(s[i] == x); } else { assert(s[i + 1] == x); }
+        }
+        if s.contains(x) && x != s[p] {
+            let i = choose|i: int| 0 <= i < s.len() && s[i] == x;
+            if i < p { assert(d[i] == x); } else { assert(d[i - 1] == x); }
+        }
+    }
+    assert forall|i: int, j: int| 0 <= i < d.len() && 0 <= j < d.len() && i != j implies d[i] != d[j] by {
+        let i2 = if i < p { i } else { i + 1 };
+        let j2 = if j < p { j } else { j + 1 };
+        assert(d[i] == s[i2] && d[j] == s[j2]);
+    }
+}
+
+/// C15, remove_vehicle: vehicle v leaves its cycle
+pub proof fn lemma_remove_vehicle_wf(old_t: TView, new_t: TView, net: &Network, tours: Map<VehicleIdx, Tour>, v: VehicleIdx, nc: TransitionCycle)
+    requires
+        old_t.wf(net, tours),
+        old_t.lookup.contains_key(v),
+        ({
+            let k = old_t.cycle_of(v);
+            let c = old_t.cyc(k);
+            let p = c.index_of(v);
+            &&& new_t.cycles == old_t.cycles.update(k, nc)
+            &&& nc.cycle@ == c.remove(p)
+            &&& nc.maintenance_counter == spec_cycle_counter(net, tours, nc.cycle@)
+            &&& new_t.lookup == old_t.lookup.remove(v)
+            &&& new_t.empty == (if c.len() == 1 { old_t.empty.push(k as CycleIdx) } else { old_t.empty })
+            &&& new_t.total_counter == old_t.total_counter - old_t.cycles[k].maintenance_counter + nc.maintenance_counter
+            &&& new_t.total_violation == old_t.total_violation - max0(old_t.cycles[k].maintenance_counter as int) + max0(nc.maintenance_counter as int)
+        }),
+    ensures
+        new_t.wf(net, tours),
+        new_t.total_len() == old_t.total_len() - 1,
+{
+    let k = old_t.cycle_of(v);
+    let c = old_t.cyc(k);
+    assert(c.contains(v));
+    let p = c.index_of(v);
+    assert(old_t.cyc(k)[p] == v);
+    let d = nc.cycle@;
+    lemma_remove_contains(c, p);
+    assert forall|a: int| 0 <= a < d.len() implies
+        tours.contains_key(#[trigger] d[a]) && tour_ok(net, &tours[d[a]]) && old_t.lookup.contains_key(d[a]) && old_t.cycle_of(d[a]) == k && d[a] != v by {
+        let a2 = if a < p { a } else { a + 1 };
+        assert(d[a] == old_t.cyc(k)[a2]);
+    }
+    assert forall|x: VehicleIdx| #[trigger] new_t.lookup.contains_key(x) implies
+        (d.contains(x) && new_t.cycle_of(x) == k)
+        || (old_t.lookup.contains_key(x) && old_t.cycle_of(x) != k && new_t.cycle_of(x) == old_t.cycle_of(x)) by {
+        if old_t.cycle_of(x) == k {
+            assert(old_t.cyc(old_t.cycle_of(x)).contains(x));
+        }
+    }
+    lemma_frame(old_t, new_t, net, tours, tours, k, nc);
+    // empty cycles
+    if c.len() == 1 {
+        assert(!old_t.empty.contains(k as CycleIdx));
+        lemma_push_contains(old_t.empty, k as CycleIdx);
+    }
+    assert forall|x: CycleIdx| #[trigger] new_t.empty.contains(x) <==> (0 <= x < new_t.n() && new_t.cyc(x as int).len() == 0) by {
+        if x < old_t.n() && x != k { assert(new_t.cyc(x as int) == old_t.cyc(x as int)); }
     }
 }
